@@ -14,7 +14,7 @@ TRUST = ('trusted base: the independent blob encoder/decoder (RFC 4253, 5656, 87
 TECHNIQUE = 'deterministic simulation of the multi-connection probe protocol; history oracle over the server-side log of presented host keys; probe-phase fault injection'
 LEVEL = 'exploration'
 BUDGET = {'quick': 200, 'thorough': 2400}
-NCASES = {'quick': 600, 'thorough': 12000}
+NCASES = {'quick': 1200, 'thorough': 12000}
 RULE = ('cases: key ring (RSA size on the 64-bit grid; cert host/CA type and size), host-key list = seeded subset/order of RSA family + other types + certificate types, probe '
         'kex (curve25519 mostly; DH groups and GEX sampled), rendering (text/verbose/JSON); 25% of cases add probe-phase faults. non-trivial: a host-key reply was parsed; distinct '
         'by (key types, RSA size, CA type, CA size, RSA-family subset/order).')
